@@ -137,6 +137,15 @@ CHECKS = {
              "pixel, and helper vs general injection (compact everywhere, tailed within FWHM), mirror symmetry and zero-drift smearing are "
              "evaluated on the implementation for all five profile types.",
         design="3/C13", technique="Coq proof over Q (floor/ceiling bounds by lra) + exact-rational and helper-vs-general correspondence"),
+    "C17": dict(
+        text="Theorems: a slice [l,r) holds exactly columns l..r-1 of data and axis and inherits T, df, dt, orientation, start time and source, "
+             "with fch1 per orientation; de-drifting shifts row i by round(|d| i dt/df) towards the start of the drift for either sign (offsets "
+             "monotone, never beyond the frame), row 0 is unshifted and the output axis labels its pixels with their input frequencies, a rate "
+             "is rejected iff it leaves no channels, a constant-drift path lands within half a channel of one column, metadata are inherited; "
+             "spectra / time series are the per-column / per-row sum or mean. The model is compared exactly with get_slice / dedrift / "
+             "integrate on frames with distinct integer pixels (synthetic and loaded from .fil/.h5), and data, axes, rejection, inherited "
+             "attributes, axis carried by Spectrum/TimeSeries and copy-not-view are evaluated on the implementation.",
+        design="3/C17", technique="Coq proof (list routing + round-half-even monotonicity over Q) + exact correspondence on integer-tagged frames"),
 }
 
 PENDING_REASON = "check not built yet in this session (planned in DESIGN.md section 3); no claim is made for it in this commit"
